@@ -2,7 +2,7 @@
 from e2 import E2
 FILES = ['src/writer/file_writer.c', 'src/writer/row_group_writer.c', 'src/writer/column_writer.c', 'src/writer/page_writer.c', 'src/encoding/rle.c', 'src/encoding/plain.c',
          'src/metadata/schema.c', 'src/reader/file_reader.c', 'src/reader/page_reader.c', 'src/reader/column_reader.c', 'src/thrift/parquet_types.c']
-BUDGET = {'quick': 1500, 'thorough': 3600}
+BUDGET = {'quick': 840, 'thorough': 3600}
 H = 'harness/e2/c01_rt.c'
 STUBS = ['stdio: in-memory model file system', 'cpuid: no SIMD features (scalar dispatch)', 'summary: carquet_crc32 = uninterpreted function of the page bytes (the function itself is C14)',
          'OpenMP pragmas: sequential schedule of the _OPENMP-enabled code']
